@@ -110,6 +110,11 @@ def _print_Piecewise(
         return e
 
     expr = evaluate_numbers_in_conditions(expr)
+    if not isinstance(expr, sympy.Piecewise):
+        # With evaluated numbers the first condition can turn out to be always
+        # true, e.g. Or(Ge(x, -0.375), Lt(x, -0.375)), and the Conditional is
+        # just its first value
+        return (print_cond(sympy.true),), (printer._print(expr),)
 
     try:
         simplified = sympy.simplify(expr)
